@@ -15,7 +15,7 @@ ENGINE = "e2e-reference"
 TECHNIQUE = "boundary recorder on SVBackend._run_from_sequence_data + dense Lindblad-generator reference; physicality invariants; in-situ Krylov step monitor"
 LEVEL_TEXT = ("Exploration: generated ground-rydberg sequences (1-5 atoms, all waveform kinds, mixed zero/non-zero phases, local channel, DMM, SLM) "
               "with dephasing, relaxation, depolarizing, random 2x2 effective operators and their combinations, random rates, dt, "
-              "krylov tolerances and random initial density matrices; every stored density matrix and observable is compared with exact "
+              "krylov tolerances and random initial density matrices, plus 1-4 us constant-drive runs (80-160 steps) with generic effective operators; every stored density matrix and observable is compared with exact "
               "evolution of the recorded piecewise-constant Lindblad generator and checked for Hermiticity, trace 1 and positivity.")
 LEVEL_NOTE = "Pulser's master-equation reference (qutip) is not installed: that clause is decided as this check + C24 (jump operators equal Pulser's lindblad_data) + C21-C23."
 RULE = "(N, noise kinds, channels, phase mode, dt, krylov tol, initial state); distinct = structural fingerprint; non-trivial = purity drops below 1-1e-4 and the state changes"
@@ -37,6 +37,9 @@ def gen_cases(tier, seed):
                       "dmm": bool(rng.random() < 0.2), "slm": bool(rng.random() < 0.2 and n >= 2),
                       "dt": float(rng.choice([1, 2.5, 5, 10, 10, 25])) if n < 5 else 10.0,
                       "ktol": float(10.0 ** float(rng.choice([-6, -8, -10]))), "init": bool(rng.random() < 0.3)})
+        if i % 8 == 3:
+            # long runs (80-160 steps) with generic effective operators: rounding-level defects of the state (anti-Hermitian part, trace) have time to grow
+            cases[-1].update(long=True, n=int(rng.integers(2, 5)), kind=str(rng.choice(["eff", "all", "eff+relaxation"])), local=False, dmm=False, slm=False, dt=25.0, init=False)
     return cases
 
 
@@ -65,6 +68,12 @@ def run_case(case):
     n = case["n"]
     spec = seqgen.random_spec(rng, n=n, basis="ising", dmin=6.0, local=case["local"], dmm=case["dmm"], slm=case["slm"],
                               max_dur=60 if n == 5 else 150, min_dur=16, n_pulses=int(rng.integers(1, 3 if n == 5 else 4)))
+    if case.get("long"):
+        d = float(rng.uniform(5.0, 9.0))
+        spec = {"basis": "ising", "device": "mock", "atoms": [[f"q{i}", d * (i % 2), d * (i // 2)] for i in range(n)], "has_global": True, "ops": []}
+        for _ in range(int(rng.integers(1, 3))):
+            T = int(rng.choice([1000, 1500, 2000]))
+            spec["ops"].append({"op": "pulse", "ch": "g", "amp": ["const", T, float(rng.uniform(2, 8))], "det": ["const", T, float(rng.uniform(-8, 8))], "phase": float(rng.choice([0.0, 2.2]))})
     seq = seqgen.build(spec)
     nm, nkw = noise_model(rng, case["kind"])
     times = sorted({0.0, 1.0} | {float(x) for x in rng.choice([0.2, 1 / 3, 0.5, 0.71, 0.9], size=2)})
